@@ -128,7 +128,7 @@ def _install(ctx, tx, rx, mode, bs, macsize, gen, gcmlog):
 
 
 def stream_case(mode, nmsgs, maxlen, frag=False, compress=False, macs=(12, 20, 32, 64), lens=None, timeouts=0, bss=(8, 16),
-                partial_sends=0):
+                partial_sends=0, wall_s=240):
     def fn(ctx):
         from paramiko.packet import Packetizer, NeedRekeyException
 
@@ -217,7 +217,7 @@ def stream_case(mode, nmsgs, maxlen, frag=False, compress=False, macs=(12, 20, 3
                  "compression": compress, "key switch": "before any message",
                  "socket timeouts": ("each of the first %d recv() calls may time out, with or without a re-key due" % timeouts) if timeouts else "none",
                  "partial sends": ("each of the first %d send() calls accepts everything, one byte, half, or times out" % partial_sends) if partial_sends else "none"},
-                max_paths=60000, wall_s=240)
+                max_paths=60000, wall_s=wall_s)
 
 
 def cases(tier):
@@ -239,5 +239,5 @@ def cases(tier):
     if not q:
         cs += [stream_case(m, 3, None, macs=(20,), lens=lambda bs: [1, bs - 4, bs + 3]) for m in MODES]
         cs += [stream_case("classic", 2, None, compress=True, macs=(12, 64), lens=few)]
-        cs += [stream_case("none", 2, None, compress=True, lens=lambda bs: [5, 65536 + 9])]
+        cs += [stream_case("none", 2, None, compress=True, lens=lambda bs: [5, 65536 + 9], wall_s=900)]
     return cs
